@@ -215,7 +215,7 @@ def run_shard(spec):
 def check_floors(counters, evaluations, tier):
     msgs = []
     for key, frac in (('multi-watcher-sequence', 0.3),
-                      ('death-during-sequence', 0.2),
+                      ('death-during-sequence', 0.14),
                       ('autostart-off', 0.1)):
         if counters.get(key, 0) < frac * evaluations:
             msgs.append("%s in only %d of %d cases" % (
